@@ -151,6 +151,25 @@ func Corpus(prop string) []Seq {
 			out = append(out, q)
 		}
 	}
+	if prop == "C18" {
+		// every probe pair over a tree with gaps and duplicates, for small and large nodes
+		for _, l := range []int{2, 4, 8} {
+			var ops []Op
+			for i, k := range []int{6, 2, 8, 2, 4, 6, 0, 6, 8, 2, 6, 4} {
+				ops = append(ops, add("add", k, 100+i))
+			}
+			for a := -1; a <= 9; a++ {
+				ops = append(ops, Op{K: "find", Key: a, First: true}, Op{K: "finddesc", Key: a}, Op{K: "find", Key: a})
+				for b := -1; b <= 9; b += 1 + (a+l)%2 {
+					ops = append(ops, Op{K: "range", Key: a, To: b}, Op{K: "rangedesc", Key: b, To: a})
+				}
+			}
+			for id := 1; id <= 13; id++ {
+				ops = append(ops, Op{K: "findid", Key: 6, ID: id}, Op{K: "findid", Key: 2, ID: id})
+			}
+			out = append(out, Seq{Cfg: Cfg{L: l}, Ops: ops})
+		}
+	}
 	// the nil dereference on a rejected key change (C17 finding)
 	out = append(out, Seq{Cfg: Cfg{L: 4, Unique: true}, Ops: []Op{add("add", 1, 1), add("add", 1, 2), {K: "updcurkey", Key: 2}}})
 	// the same call rejected properly when the current item is cached
